@@ -34,6 +34,9 @@ InnerD(e) == CASE e.k \in {"bd", "bdl", "bdr"} -> InnerD(e.d)
 RECURSIVE HasNode(_, _)
 HasNode(e, kind) == e.k = kind \/ (e.k \in {"union", "cut", "and", "prod"} /\ (HasNode(e.l, kind) \/ HasNode(e.r, kind)))
                     \/ (e.k \in {"trans", "rot", "bd", "bdl", "bdr"} /\ HasNode(e.d, kind))
+\* acknowledged deviation "dep_product_box_estimate": the box of a product whose first factor depends on the second
+\* factor's coordinate is estimated from 10 random points of the second factor (the code warns), so it may cut the domain
+DepBox(e) == IF e.k = "prod" /\ FreeVars(e.l) \cap SpaceVars(e.r) # {} THEN "dep_product_box_estimate" ELSE ""
 Check(t) ==
     IF "driver_error" \in DOMAIN t THEN <<"driver-error", "", 0>>
     ELSE LET e == InnerD(E(t))        \* the box of a boundary is judged against the closed domain it bounds
@@ -46,9 +49,9 @@ Check(t) ==
                                        IF HasNode(E(t), "trans") /\ t.box_exc = "RuntimeError" /\ E(t).k \in {"prod", "union", "and"} THEN "translate_bbox_per_row" ELSE "", 0>>
          ELSE IF t.box_shape # <<2 * d>> THEN
               <<"box-shape", IF HasNode(E(t), "trans") /\ Len(t.box_shape) = 2 /\ t.box_shape[2] = 2 * d THEN "translate_bbox_per_row" ELSE "", 0>>
-         ELSE IF \E i \in DOMAIN rows : ~Encloses(e, rows[i], t.box) THEN <<"box-does-not-enclose-domain", "", Len(rows)>>
+         ELSE IF \E i \in DOMAIN rows : ~Encloses(e, rows[i], t.box) THEN <<"box-does-not-enclose-domain", DepBox(e), Len(rows)>>
          ELSE IF \E j \in DOMAIN t.single : t.single[j].box_exc = "" /\ t.single[j].box_shape = <<2 * d>>
-                      /\ ~Encloses(e, rows[j], t.single[j].box) THEN <<"box-does-not-enclose-domain(single row)", "", Len(rows)>>
+                      /\ ~Encloses(e, rows[j], t.single[j].box) THEN <<"box-does-not-enclose-domain(single row)", DepBox(e), Len(rows)>>
          ELSE IF HasBox(e) /\ \E j \in DOMAIN t.single : t.single[j].box_exc = "" /\ ~Tight(e, rows[j], t.single[j].box) THEN <<"box-not-tight", "", Len(rows)>>
          ELSE IF t.norm_exc \notin {"", "none"} THEN <<"normalization-layer-failed:" \o t.norm_exc, "", Len(rows)>>
          ELSE IF \E i \in DOMAIN t.norm : In(e, [val |-> t.norm[i].q.val, w |-> 1])
